@@ -49,28 +49,47 @@ def firstSome {α : Type} (xs : List α) (f : α → Option String) : Option Str
 
 def keys : List Nat := [0, 1, 2, 3]
 
+/-- Instances of the string parameters (`StrOps`) the translated functions are run with: names are numbers here, so
+"the name reads as a position" is `toInt n = some n` with every predicate true (names 0, 1, 2 in every order and
+multiplicity are in the scope: a name is rarely its own position); then nothing is a number; then a mixture with a
+`strip`-like map that identifies names. -/
+def strOps : List (String × StrOps Nat) :=
+  [("every str predicate true, int(n) = n", ⟨fun _ _ => true, fun _ n => n, fun n => some (n : Int), fun s => s.length⟩),
+   ("every str predicate false, int(n) raises, every str method adds one", ⟨fun _ _ => false, fun _ n => n + 1, fun _ => none, fun _ => 0⟩),
+   ("predicates: even, str methods: mod 2, int(n) = n - 1 below 2", ⟨fun _ n => n % 2 == 0, fun _ n => n % 2,
+      fun n => if n < 2 then some ((n : Int) - 1) else none, fun s => s.length % 3⟩)]
+
 def checkAllNames (f : C → List Nat) : Option String :=
   firstSome ((tagged kinds)) (fun c =>
     if f c = c.allNames then none else some s!"all_names of {repr c}: generated {f c}, model {c.allNames}")
 
-def checkFind (f : (Nat → Nat) → S → Nat → Bool → Option C) : Option String :=
-  firstSome lookupSchemas (fun s => firstSome keys (fun k => firstSome [false, true] (fun ci =>
-    if f lower s k ci = find lower s.columns k ci then none
-    else some s!"find_column({k}, case_insensitive={ci}) on {repr s.columns}: generated {repr (f lower s k ci)}, model {repr (find lower s.columns k ci)}")))
+def checkFind (f : StrOps Nat → (Nat → Nat) → S → Nat → Bool → Option C) : Option String :=
+  firstSome strOps (fun (lbl, so) => firstSome lookupSchemas (fun s => firstSome keys (fun k => firstSome [false, true] (fun ci =>
+    if f so lower s k ci = find lower s.columns k ci then none
+    else some s!"find_column({k}, case_insensitive={ci}) on {repr s.columns} [{lbl}]: generated {repr (f so lower s k ci)}, model {repr (find lower s.columns k ci)}"))))
 
 def columnKeys : List (Key Nat) :=
   [.idx (-4), .idx (-3), .idx (-2), .idx (-1), .idx 0, .idx 1, .idx 2, .idx 3, .flag true, .flag false,
    .name 0, .name 1, .name 2, .name 3]
 
-def checkColumn (f : S → Key Nat → Out Nat Nat) : Option String :=
-  firstSome lookupSchemas (fun s => firstSome columnKeys (fun k =>
-    if f s k = column s.columns k then none
-    else some s!"column({repr k}) on {repr s.columns}: generated {repr (f s k)}, model {repr (column s.columns k)}"))
+def showExcept : Except String (Out Nat Nat) → String
+  | .ok o => s!"{repr o}"
+  | .error e => s!"raises {e}"
 
-def checkPop (f : S → Nat → Option C × List C) : Option String :=
-  firstSome lookupSchemas (fun s => firstSome keys (fun k =>
-    if f s k = popCol k s.columns then none
-    else some s!"pop_column({k}) on {repr s.columns}: generated {repr (f s k)}, model {repr (popCol k s.columns)}"))
+def isOk (r : Except String (Out Nat Nat)) (o : Out Nat Nat) : Bool :=
+  match r with
+  | .ok o' => decide (o' = o)
+  | .error _ => false
+
+def checkColumn (f : StrOps Nat → S → Key Nat → Except String (Out Nat Nat)) : Option String :=
+  firstSome strOps (fun (lbl, so) => firstSome lookupSchemas (fun s => firstSome columnKeys (fun k =>
+    if isOk (f so s k) (column s.columns k) then none
+    else some s!"column({repr k}) on {repr s.columns} [{lbl}]: generated {showExcept (f so s k)}, model {repr (column s.columns k)}")))
+
+def checkPop (f : StrOps Nat → S → Nat → Option C × List C) : Option String :=
+  firstSome strOps (fun (lbl, so) => firstSome lookupSchemas (fun s => firstSome keys (fun k =>
+    if f so s k = popCol k s.columns then none
+    else some s!"pop_column({k}) on {repr s.columns} [{lbl}]: generated {repr (f so s k)}, model {repr (popCol k s.columns)}")))
 
 def checkNames (cn it acn : S → List Nat) (nc : S → Nat) : Option String :=
   firstSome lookupSchemas (fun s =>
